@@ -18,7 +18,7 @@ line_printer manifest_parser metrics missing_deps parser real_command_runner sta
 status_printer string_piece_util util version jobserver-posix subprocess-posix depfile_parser
 lexer ninja""".split()
 
-SIM_SRCS = "arena kernel glue scenario models world oracles driver logdrv main".split()
+SIM_SRCS = "arena kernel glue scenario models world oracles driver logdrv fidelity main".split()
 
 WRAPS = """fopen fclose fileno stat stat64 fstat fstat64 mkdir remove unlink rename truncate chown
 open close read write fcntl getcwd chdir pipe posix_spawn posix_spawn_file_actions_adddup2
@@ -95,6 +95,10 @@ def gen(variant, src_override=None):
         objs.append(o)
     ld = " ".join(ldflags + ["-no-pie", "-Wl," + ",".join("--wrap=" + w for w in WRAPS)])
     lines += ["build simninja: link " + " ".join(objs), "  ldflags = " + ld, "default simninja", ""]
+    if kind == "plain":
+        # the same ninja objects without the simulated layer (fidelity cross-check)
+        lines += ["build s_realmain.o: cc " + os.path.join(VERIF, "sim", "realmain.cc"), "  extra = ",
+                  "build realninja: link " + " ".join(o for o in objs if o.startswith("n_")) + " s_realmain.o", "  ldflags = ", ""]
     path = os.path.join(out, "build.ninja")
     text = "\n".join(lines)
     old = open(path).read() if os.path.exists(path) else None
